@@ -19,9 +19,9 @@ CHECKS = {
     "C20": dict(
         text="PARTIAL. Theorems, for every input: the claim text parser, the claim byte parser and both scalar unpackers never reach a checked primitive (range slicing, array indexing, the scalar library's panicking hex decoder) with an argument on which it unwinds; the structural skeleton of Presentation::verify (dispatch, reported-claim comparison, hidden-message index walk of both suites, every verifier's structural tests, response-count and index checks of both proofs of signature knowledge) never unwinds for any structure (missing entries, dangling / mistyped references, unsorted or out-of-range indices, response vectors and keys of any length) and any outcome of every cryptographic test, and a structure it rejects when every test passes is rejected whatever the tests say. Termination is structural. "
              "The same for the skeleton of Presentation::create with get_message_types and the equality builder (every credential map and statement list with unique map keys; invariants on the shared-blinder marks, the proof-message table and the builder-index map) and for the skeletons of blind-request creation, blind signing with context verification, request verification and unblinding. The serde decoders and the hand-written byte codecs have no Coq model of their control flow in this property (the codecs have one under C19): they are covered by the mutation harness only. "
-             "Correspondence / search: all strings of length 0..3 (thorough 0..4) over an 18-symbol alphabet plus prefixed and random strings, byte strings and scalars for the parsers (full result compared with the model); one structural mutation at every key, index, reference, list and flag (sampled for retyping and leaf bytes) of the CBOR tree of presentations, schemas, credential maps, issuer public data, blind requests, known/blind claim maps and blind bundles, both suites, decoded and handed to verify, create, blind_sign_credential, BlindCredentialRequest::verify, to_unblinded, BlindCredentialRequest::new (each compared with its skeleton evaluated under the all-pass oracle) and the decryption methods; byte-level mutations of CBOR/BARE/JSON encodings; arbitrary and mutated bytes for every hand-written from_bytes. Any panic is reported with its source location.",
+             "Correspondence / search: all strings of length 0..3 (thorough 0..4) over an 18-symbol alphabet plus prefixed and random strings, byte strings and scalars for the parsers (full result compared with the model); one structural mutation at every key, index, reference, list and flag (sampled for retyping and leaf bytes) of the CBOR tree of presentations, schemas, credential maps, issuer public data, blind requests, known/blind claim maps and blind bundles, both suites, decoded and handed to verify, create, blind_sign_credential, BlindCredentialRequest::verify, to_unblinded, BlindCredentialRequest::new (each compared with its skeleton evaluated under the all-pass oracle) and the decryption methods; byte-level mutations of CBOR/BARE/JSON encodings; arbitrary and mutated bytes for every hand-written from_bytes, and the compact BBS public key with a boundary list of announced message counts, expanded. Any panic is reported with its source location; the thorough tier repeats the exploration on the library built with overflow checks and debug assertions.",
         design="§7 C20, §14",
-        note="A panic inside a third-party crate is visible only to the harness. Known finding: JSON decoding panics inside blstrs_plus' hex decoder. Not exercised: BBS CompressedPublicKey::decompress with an attacker-chosen max_messages (allocation proportional to the count).",
+        note="A panic inside a third-party crate is visible only to the harness. Known finding: JSON decoding panics inside blstrs_plus' hex decoder. Known finding: a received compact BBS public key announcing 2^32 or more messages aborts the process or panics in decompress (no bound on the count). A harness process that dies or hangs on an op is attributed to that op and reported (abort / non-termination are part of the property).",
         technique="Coq theorems (induction over the index walk with the cursor invariant j <= i, pigeonhole bound on the known-index set, case analysis of every branch) about executable models with panicking primitives + mutation-based differential correspondence / panic search against credx"),
     "C18": dict(
         text="Theorems over all of i64 / all byte strings / all claims: zero-centring value, strict monotonicity, injectivity, canonicity and inverse of the integer encoding; "
@@ -68,7 +68,7 @@ CHECKS = {
         text="Theorems: acceptance implies that the commitment verifier's hashed Schnorr commitment is computed with the response the referenced signature proof carries for the referenced claim; for the ascending disclosed list that acceptance forces, the index->slot walk pairs the k-th hidden index with response off+k and the proof of knowledge multiplies that response with the generator of the same index (walk = set semantics, proved by induction over the walk with a cursor invariant), so the lookup cannot be shifted. "
              "Correspondence: substitute value with shared/independent nonce, omitted predicate proof, padded/reversed/aliased/shortened index lists, foreign inner id x 4 shapes x BBS/PS.",
         design="§7 C05",
-        note="Modelled predicate kinds: commitment and equality; revocation/membership/encryption verifiers use the same extraction path (verify.rs) and are covered at protocol level by C06/C10.",
+        note="Modelled predicate kinds: commitment, equality, revocation and set membership (the accumulator proof's recomputed commitments are one opaque transcript item computed by the harness with MembershipProof::finalize; the theorem C05_accept_revocation_link says acceptance forces the proof's element response to be the signature proof's response for the referenced claim; the external holder runs the library's MembershipProofCommitting on another credential's identifier and handle / another element of the set); encryption: C10.",
         technique="Coq theorems (induction over the index walk; verifier model) + differential correspondence with deviating holders"),
     "C09": dict(
         text="Theorems: acceptance of an equality statement implies a non-empty reference list and one scalar v such that every referenced (signature statement, claim) yields response v through the checked extraction path; with special soundness (C17) equal responses under two challenges give equal extracted signed values; and for the honest side, a model of the prover's blinder propagation with the theorem that any two claims named by one equality statement end up with the same proof message whatever the number, overlap and order of the statements (refuted, with the witness (b=c, a=b), for the pinned tree's statement-by-statement copying; repaired). "
